@@ -60,7 +60,7 @@ fn internal_htlc_satisfies_config(
     proof { assert(amt_to_forward as int * (config.forwarding_fee_proportional_millionths as int) >= 0) by (nonlinear_arith)
                 requires amt_to_forward >= 0, config.forwarding_fee_proportional_millionths >= 0; }
 
-		let fee = amt_to_forward.checked_mul(self.context.get_fee_proportional_millionths() as u64)
+		let fee = amt_to_forward.checked_mul(config.forwarding_fee_proportional_millionths as u64)
 			.and_then(|prop_fee: u64| -> (o: Option<u64>)
         ensures o == (if prop_fee as int / 1000000 + config.forwarding_fee_base_msat as int <= u64::MAX { Some((prop_fee as int / 1000000 + config.forwarding_fee_base_msat as int) as u64) } else { None::<u64> })
         { (prop_fee / 1000000).checked_add(config.forwarding_fee_base_msat as u64) });
